@@ -553,6 +553,9 @@ def ecc_ephemeral(vc):
 # x-coordinate as 32 bytes).  The width of that secret and the agreement with an independent unwrap are proved under C09;
 # they are obligations here too - a block that only the library's own reader can open does not wrap THE session key.
 from pyvc.harness import reuse as _reuse
-from contracts import C09 as _C09x  # noqa: E402,F401
 _reuse("C09/compute_dh_secret=x-as-32-bytes", "C07/ecc-block.secret=x-as-32-bytes(leading-zeros-kept)")
 _reuse("C09/independent-ecies", "C07/ecc-block.independent-unwrap-gives-the-file-key")
+# where the fresh session key and the ephemeral key pair COME FROM: random_bytes / generate_private_ecc_key reach the
+# registered implementations (os.urandom, SigningKey.generate on P-256) with the caller's arguments
+_reuse("C06/crypto.registry", "C07/crypto.registry(random_bytes,generate_private_ecc_key->registered)")
+_reuse("C09/plug-in.key-proxies", "C07/plug-in.key-proxies(generate-on-P-256,random_bytes=os.urandom)")
